@@ -94,6 +94,40 @@ def run(cmd, env, data=None, timeout=30):
     return p.returncode, p.stdout, p.stderr
 
 
+def run_observe(cmd, env, data, rec, names, timeout=30):
+    """like run(), but delta's stdout and stderr are files, so that its exit is observed when it happens (with pipes the
+    call would only return once the pager - which inherits them - has gone too). -> (status, stdout, stderr,
+    {pager stub name: its exit marker existed when delta's exit was observed}, {name: it was started})"""
+    import tempfile
+    with tempfile.TemporaryFile() as fo, tempfile.TemporaryFile() as fe:
+        p = subprocess.Popen(cmd, env=env, stdin=subprocess.PIPE if data is not None else subprocess.DEVNULL,
+                             stdout=fo, stderr=fe)
+        try:
+            if data is not None:
+                try:
+                    p.stdin.write(data)
+                    p.stdin.close()
+                except BrokenPipeError:
+                    pass
+            st = p.wait(timeout=timeout)
+        except subprocess.TimeoutExpired:
+            p.kill()
+            p.wait()
+            return -9, b"", b"HANG: no exit within %d s" % timeout, {}, {}
+        at_exit = {n: os.path.exists(os.path.join(rec, n + ".exit")) for n in names}
+        t_end = time.time() + 10
+        while time.time() < t_end:
+            started = {n: os.path.exists(os.path.join(rec, n + ".argv")) for n in names}
+            if all(os.path.exists(os.path.join(rec, n + ".exit")) for n in names if started[n]):
+                break
+            time.sleep(0.02)
+        started = {n: os.path.exists(os.path.join(rec, n + ".argv")) for n in names}
+        # (a pager started just before delta's exit: give its first lines of shell a moment)
+        fo.seek(0)
+        fe.seek(0)
+        return st, fo.read(), fe.read(), at_exit, started
+
+
 # ---------------------------------------------------------------------------------------------
 # modes for the write-fault sweep
 
@@ -131,6 +165,11 @@ def modes(d, sd, size):
         ("two-files", base + [fa, fb], None, {}, 1),
         ("wrap-git", base + ["git", "log", "-p"], None, {"PATH": stub_path, "VERIF_STUB_OUTPUT": diff_file}, 0),
         ("wrap-rg", base + ["rg", "main"], None, {"PATH": stub_path, "VERIF_STUB_OUTPUT": rg_file}, 0),
+        # what delta writes when it is not rendering: the reader may go away just the same (`delta --show-config | head -1`)
+        ("show-config", base + ["--show-config"], b"", {}, 0),
+        ("version", ["--version"], b"", {}, 0),
+        ("parse-ansi", base + ["--parse-ansi"], b"".join(b"\x1b[3%dmline %d\x1b[m\n" % (i % 8, i) for i in range(size * 3)), {}, 0),
+        ("generate-completion", ["--generate-completion", "bash"], b"", {}, 0),
     ]
 
 
@@ -226,6 +265,138 @@ def pager_quit_task(task):
 
 
 # ---------------------------------------------------------------------------------------------
+# option values that delta looks at late; a wrapped command that writes much to its stderr; pager arguments
+
+BLAME_IN = b"".join(b"0123456%d (A U Thor 2020-01-01 00:00:00 +0000 %d) line %d\n" % (i % 3, i + 1, i) for i in range(4))
+LATE_CASES = [
+    # (label, args, input, caller): whatever delta makes of the value, it does not exit while its pager is running
+    ("blame-palette-5-digit-hex", ["--blame-palette=#00000 #222222"], BLAME_IN, "git blame f.rs"),
+    ("blame-palette-word", ["--blame-palette=nosuchcolour"], BLAME_IN, "git blame f.rs"),
+    ("blame-timestamp-output-format", ["--blame-timestamp-output-format=%Q"], BLAME_IN, "git blame f.rs"),
+    ("blame-format-width", ["--blame-format={author:<99999999999999999999} {commit}"], BLAME_IN, "git blame f.rs"),
+    ("blame-separator-format", ["--blame-separator-format={n:~}"], BLAME_IN, "git blame f.rs"),
+    ("blame-separator-every", ["--blame-separator-format={n:every-x}"], BLAME_IN, "git blame f.rs"),
+    ("line-numbers-left-format", ["--line-numbers", "--line-numbers-left-format={nm:^99999999999999999999}"], None, None),
+    ("tabs-huge", ["--tabs=18446744073709551615"], None, None),
+    ("valid", ["--blame-palette=#000000 #222222"], BLAME_IN, "git blame f.rs"),
+]
+
+
+def late_exit_task(case):
+    label, args, data, caller = case
+    d = work_dir()
+    sd = make_stubs(d)
+    rec = os.path.join(d, "rec_late_" + label)
+    shutil.rmtree(rec, ignore_errors=True)
+    os.makedirs(rec)
+    env = base_env()
+    env["DELTA_VERIF_PARENT_ARGS"] = caller or "verif-none"
+    env["PATH"] = sd + ":" + env["PATH"]
+    env["VERIF_REC_DIR"] = rec
+    env["VERIF_PAGER_LINGER"] = "0.5"
+    full = ["--no-gitconfig", "--paging=always", "--detect-dark-light=never", "--pager=pg_cli"] + args
+    st, out, err, at_exit, started_ = run_observe([build.BIN] + full, env,
+                                                  data if data is not None else sample_diff(1) + b"\tx\n", rec, ["pg_cli"])
+    started = started_.get("pg_cli", False)
+    exited = at_exit.get("pg_cli", False)
+    viols = []
+    if st == 101 or st < 0 or b"panicked" in err:
+        pass        # C03's business
+    elif started and not exited:
+        v = Violation("exit-before-pager:late-rejection", "%s: delta exits with status %d (%r) while the pager it started is "
+                      "still running" % (label, st, err[:120]))
+        v.args = full
+        v.caller = caller.split() if caller else None
+        viols.append(v)
+    return {"n": 1, "violations": viols, "started": started}
+
+
+def pager_args_task(case):
+    """the pager command of every source is started with the arguments given there (a stub called other than `less`)"""
+    source, value, want = case
+    d = work_dir()
+    sd = make_stubs(d)
+    rec = os.path.join(d, "rec_pargs")
+    shutil.rmtree(rec, ignore_errors=True)
+    os.makedirs(rec)
+    env = base_env()
+    env["DELTA_VERIF_PARENT_ARGS"] = "verif-none"
+    env["PATH"] = sd + ":" + env["PATH"]
+    env["VERIF_REC_DIR"] = rec
+    args = ["--no-gitconfig", "--paging=always", "--detect-dark-light=never"]
+    if source == "cli":
+        args.append("--pager=" + value)
+    else:
+        env[source] = value
+    st, out, err = run([build.BIN] + args, env, sample_diff(1))
+    name = value.split()[0]
+    p = os.path.join(rec, name + ".argv")
+    viols = []
+    if st != 0 or err or not os.path.exists(p):
+        viols.append(Violation("pager-run-failed", "%s=%r: exit %d stderr %r" % (source, value, st, err[:200])))
+    else:
+        argv = [a for a in open(p).read().split("\n") if a]
+        if argv != want:
+            viols.append(Violation("pager-arguments-lost:" + source, "%s=%r: the pager was started with the arguments %r, "
+                                   "given were %r" % (source, value, argv, want)))
+    for v in viols:
+        v.args = args
+        v.env = {source: value} if source != "cli" else None
+    return {"n": 1, "violations": viols}
+
+
+STDERR_STUB = """#!/bin/sh
+# a command with much to say on stderr, before and after its output
+i=0
+while [ $i -lt ${VERIF_STUB_STDERR_LINES:-0} ]; do echo "warning: line $i of the messages of a wrapped command, long enough to fill a pipe quickly" >&2; i=$((i+1)); done
+cat "$VERIF_STUB_OUTPUT"
+exit ${VERIF_STUB_STATUS:-0}
+"""
+
+
+def stderr_flood_task(case):
+    """the wrapped command writes more to its stderr than a pipe holds: delta still ends, passes the status through and
+    relays the messages"""
+    nlines, status = case
+    d = work_dir()
+    cmdbin = os.path.join(d, "cmdbin_flood")
+    os.makedirs(cmdbin, exist_ok=True)
+    for name in ("git", "rg"):
+        write_exec(os.path.join(cmdbin, name), STDERR_STUB)
+    data = sample_diff(2)
+    f = os.path.join(d, "flood_out")
+    open(f, "wb").write(data)
+    env = base_env()
+    env["DELTA_VERIF_PARENT_ARGS"] = "verif-none"
+    env["PATH"] = cmdbin + ":" + env["PATH"]
+    env["VERIF_STUB_OUTPUT"] = f
+    env["VERIF_STUB_STATUS"] = str(status)
+    env["VERIF_STUB_STDERR_LINES"] = str(nlines)
+    base = ["--no-gitconfig", "--paging=never", "--detect-dark-light=never"]
+    ref = run([build.BIN] + base, env, data)[1]
+    viols = []
+    n = 0
+    for cmd in (["git", "log", "-p"], ["rg", "x"]):
+        st, out, err = run([build.BIN] + base + cmd, env, timeout=20)
+        n += 1
+        msg = None
+        if st == -9:
+            msg = "delta does not end (%s)" % err[:60]
+        elif st != status:
+            msg = "delta exits %d, the command exited %d" % (st, status)
+        elif cmd[0] == "git" and out != ref:
+            msg = "the output is incomplete (%d of %d bytes)" % (len(out), len(ref))
+        elif err.count(b"\n") != nlines:
+            msg = "%d of %d message lines relayed" % (err.count(b"\n"), nlines)
+        if msg:
+            v = Violation("wrapped-stderr:" + cmd[0], "delta %s where the command writes %d lines (%d KiB) to stderr and exits %d: %s"
+                          % (" ".join(cmd), nlines, nlines * 97 // 1024, status, msg))
+            v.args = base + cmd
+            viols.append(v)
+    return {"n": n, "violations": viols}
+
+
+# ---------------------------------------------------------------------------------------------
 # pager selection
 
 SOURCES = ["cli", "cfg", "delta", "bat", "env"]
@@ -257,8 +428,7 @@ def selection_task(subset):
         env["PAGER"] = "pg_env"
     data = sample_diff(2)
     ref = run([build.BIN, "--paging=never", "--detect-dark-light=never", "--config=" + cfg], env, data)[1]
-    st, out, err = run([build.BIN] + args, env, data)
-    marker_at_exit = {n: os.path.exists(os.path.join(rec, n + ".exit")) for n in list(STUB_OF.values()) + ["less"]}
+    st, out, err, marker_at_exit, _ = run_observe([build.BIN] + args, env, data, rec, list(STUB_OF.values()) + ["less"])
     got = [n for n in list(STUB_OF.values()) + ["less"] if os.path.exists(os.path.join(rec, n + ".argv"))]
     if "cli" in subset:
         want = ["pg_cli"]
@@ -409,8 +579,8 @@ ASSUMPTIONS = [
     "write faults are injected by an LD_PRELOAD shim on write/writev of fd 1 (EPIPE from the k-th call on); "
     "pager quits are real: a stub pager reads j rows and exits",
     "BAT_PAGER vs PAGER: when both are set either may be chosen (the statement groups them)",
-    "not covered: --show-config, --version and listing subcommands writing to a closed pipe; a real "
-    "interactive less (no terminal here)",
+    "not covered: the listing subcommands that start a pager of their own (--show-syntax-themes, --show-colors, "
+    "--list-languages); a real interactive less (no terminal here)",
 ]
 
 
@@ -419,7 +589,7 @@ def main(tier):
     build.ensure_built()
     build.ensure_shims()
     sizes = [1, 3] if tier == "quick" else [1, 3, 6, 12]
-    ftasks = [(s, m) for s in sizes for m in range(6)]
+    ftasks = [(s, m) for s in sizes for m in range(6)] + [(sizes[0], m) for m in (6, 7, 9)] + [(s, 8) for s in sizes]
     fres = explore.pmap(fault_task, ftasks)
     qres = explore.pmap(pager_quit_task, [(s, m) for s in sizes for m in (0, 1, 3, 4, 5)])
     # outputs far larger than a pipe buffer: the consumer disappears while the child process (git, rg, the differ)
@@ -437,9 +607,21 @@ def main(tier):
     mres = explore.pmap(paging_mode_task, [(m, p) for m in ("always", "auto", "never") for p in (None, (24, 80))])
     stres = explore.pmap(status_task, [("differ", 0), ("differ", 1), ("differ", 2)] +
                          [("wrapped", s) for s in (0, 1, 2, 3, 128, 129, 255)])
+    late = explore.pmap(late_exit_task, LATE_CASES)
+    if not any(r["started"] for r in late):
+        raise MachineryError("late-exit cases: no pager was ever started")
+    pargs = explore.pmap(pager_args_task, [
+        ("cli", "pg_cli --flag 'a b' -x", ["--flag", "a b", "-x"]),
+        ("DELTA_PAGER", "pg_delta --flag 'a b' -x", ["--flag", "a b", "-x"]),
+        ("BAT_PAGER", "pg_bat --flag 'a b' -x", ["--flag", "a b", "-x"]),
+        ("PAGER", "pg_env --flag 'a b' -x", ["--flag", "a b", "-x"]),
+        ("PAGER", "pg_env", []),
+    ])
+    # 0, 1, and far more lines than the 64 KiB of a pipe (97 bytes each)
+    flood = explore.pmap(stderr_flood_task, [(nl, stt) for nl in (0, 1, 700, 3000) for stt in (0, 2)])
     viols = []
     n = 0
-    for r in fres + qres + sres + lres + mres + stres:
+    for r in fres + qres + sres + lres + mres + stres + late + pargs + flood:
         n += r["n"]
         viols.extend(r["violations"])
     best = {}
@@ -455,6 +637,8 @@ def main(tier):
         "samples": [{"mode": r["mode"], "writes_on_stdout": r["N"]} for r in fres[:6]] +
                    [{"mode": r["mode"], "pager_rows": r["rows"]} for r in qres[:2]],
         "write_fault_runs": sum(r["n"] for r in fres), "pager_quit_runs": sum(r["n"] for r in qres),
+        "late_rejection_cases": len(LATE_CASES), "pager_argument_cases": len(pargs),
+        "stderr_flood_runs": sum(r["n"] for r in flood),
         "pager_selection_environments": len(subsets), "wrapped_statuses": [0, 1, 2, 3, 128, 129, 255],
         "input_sizes": sizes, "big_input_size_sections": BIG, "big_input_fault_indexes": early, "exhaustive": True,
     }
